@@ -14,7 +14,7 @@ RULE = ('(policy, peer) pairs evaluated by the real Policy.evaluate on a real SS
         '(kex universe contains the strict-kex marker), all 4 flag combinations, all 16 optional-host-key subsets, size/CA/modulus maps over {absent,1024,2048,3072,4096}, '
         'field pairs jointly over a reduced universe, random large instances over database names, and policy files run through the CLI (-P) against scripted peers; '
         'a case (batch) is non-trivial when it contained at least one passing and one failing pair; distinct = distinct batch specifications')
-REQUIRED = {'free_text_banners': 25, 'old_size_directives': 200, 'multi_entry_size_maps': 700, 'other_file_layouts': 500, 'cli_multi_entries': 10, 'evaluations': 20000, 'model_pass': 500, 'model_fail': 500, 'metamorphic_checks': 200, 'cli_runs': 20}
+REQUIRED = {'peers_with_other_lists_per_direction': 300, 'client_policies': 200, 'free_text_banners': 25, 'old_size_directives': 200, 'multi_entry_size_maps': 700, 'other_file_layouts': 500, 'cli_multi_entries': 10, 'evaluations': 20000, 'model_pass': 500, 'model_fail': 500, 'metamorphic_checks': 200, 'cli_runs': 20}
 ASSUMPTIONS = ['don\'t-care where the statement is silent: compression under subset mode; an empty peer list under subset mode (optional host keys give no exemption under subset mode: the statement mentions them for exact mode only)',
                'sizes are compared only for key types / group-exchange names the peer actually presents (nothing to compare otherwise)']
 MANIFEST = {
@@ -140,7 +140,7 @@ def policy_text(pol, name='t'):
 
     def kv(k, v):
         return lay.get('lead', '') + k + eq + v + lay.get('trail', '')
-    head = [kv('name', '"%s"' % name), kv('version', '1')]
+    head = [kv('name', '"%s"' % name), kv('version', '1')] + ([kv('client policy', 'true')] if pol.get('_client') else [])
     lines = [kv('allow_algorithm_subset_and_reordering', lay.get('true', 'true') if pol['subset'] else 'false'),
              kv('allow_larger_keys', lay.get('true', 'true') if pol['larger'] else 'false')]
     if pol.get('banner') is not None:
@@ -184,6 +184,9 @@ def real_eval(pol, peer):
     with contextlib.redirect_stdout(io.StringIO()):   # the deprecation notice of the older size directives
         p = Policy(policy_data=policy_text(pol))
     k = audit.sym_kex(peer['kex'], peer['key'], peer['enc'], peer['mac'], comp=peer['comp'])
+    if peer.get('_other'):
+        # other lists in the other direction (client-to-server): the policy is about the lists the report shows, for server and client policies alike
+        k['enc_cs'], k['mac_cs'], k['comp_cs'] = list(peer['_other']['enc']), list(peer['_other']['mac']), list(peer['_other']['comp'])
     kex = SSH2_Kex.parse(OutputBuffer(), wire.kexinit_payload(k)[1:])
     for t, s in (peer.get('sizes') or {}).items():
         kex.set_host_key(t, b'', s['hostkey_size'], s.get('ca_key_type', ''), s.get('ca_key_size', 0))
@@ -452,6 +455,13 @@ def run_random(c):
     viol, st = {}, new_stats()
     for i in range(c['n']):
         pol, peer = rand_instance(rng, names)
+        if i % 3 == 0:
+            # the peer's lists of the other direction differ (other names, other order); every fourth policy is a client policy
+            peer['_other'] = {'enc': rng.sample(names['enc'], 3), 'mac': rng.sample(names['mac'], 2), 'comp': rng.choice([['none'], ['zlib@openssh.com', 'none'], ['zlib']])}
+            st['peers_with_other_lists_per_direction'] = st.get('peers_with_other_lists_per_direction', 0) + 1
+        if i % 4 == 3:
+            pol['_client'] = True
+            st['client_policies'] = st.get('client_policies', 0) + 1
         if i % 2:
             # the same policy spelled differently in the file (separators, blanks, comments, field order, flag case): same fields specified, same verdict
             pol['_layout'] = rand_layout(rng)
